@@ -130,7 +130,9 @@ pub struct SockInner {
     net: Arc<Mutex<NetState>>,
     env: SockEnv,
     socket: Arc<UtpSocket<SockTransport, SockEnv>>,
-    driver: DispatcherDriver<SockTransport, SockEnv>,
+    driver: Option<DispatcherDriver<SockTransport, SockEnv>>,
+    // a `run_once` that found nothing ready and is left waiting inside `select!` (owns the driver meanwhile)
+    parked: Option<Pin<Box<dyn Future<Output = (DispatcherDriver<SockTransport, SockEnv>, librqbit_utp::Result<()>)>>>>,
     connects: BTreeMap<u32, Call>,
     accepts: BTreeMap<u32, Call>,
 }
@@ -183,11 +185,12 @@ pub fn step_sock(st: &mut SockSt, args: &[&str]) -> String {
     if let ["new", rest @ ..] = args {
         // drop the previous world inside its own runtime context
         if let Some(old) = st.inner.take() {
-            let SockInner { rt, connects, accepts, driver, socket, .. } = old;
+            let SockInner { rt, connects, accepts, driver, socket, parked, .. } = old;
             {
                 let _g = rt.enter();
                 drop(connects);
                 drop(accepts);
+                drop(parked);
                 drop(driver);
                 drop(socket);
             }
@@ -208,7 +211,7 @@ pub fn step_sock(st: &mut SockSt, args: &[&str]) -> String {
         return match res {
             Ok((socket, driver)) => {
                 let fp = driver.fingerprint();
-                st.inner = Some(SockInner { rt, net, env, socket, driver, connects: BTreeMap::new(), accepts: BTreeMap::new() });
+                st.inner = Some(SockInner { rt, net, env, socket, driver: Some(driver), parked: None, connects: BTreeMap::new(), accepts: BTreeMap::new() });
                 format!("ok fp={fp}")
             }
             Err(e) => format!("err:{e}"),
@@ -218,6 +221,12 @@ pub fn step_sock(st: &mut SockSt, args: &[&str]) -> String {
         return "bad-op".into();
     };
     let _g = s.rt.enter();
+    if s.parked.is_some() && !matches!(args, ["accept", _] | ["inject", _, _] | ["resume", ..]) {
+        return "bad-op".into();
+    }
+    if s.parked.is_none() && matches!(args, ["resume", ..]) {
+        return "bad-op".into();
+    }
     let p32 = |x: &str| x.parse::<u32>().ok();
     let p16 = |x: &str| x.parse::<u16>().ok();
     let head: String = match args {
@@ -249,11 +258,11 @@ pub fn step_sock(st: &mut SockSt, args: &[&str]) -> String {
         ["accept", i] => match p32(i) {
             Some(i) if !s.accepts.contains_key(&i) => {
                 let sock = s.socket.clone();
-                let before = s.driver.queue_lens().1;
+                let before = s.driver.as_ref().map(|d| d.queue_lens().1);
                 let mut c = Call::Pending(Box::pin(async move { sock.accept().await }));
                 let r = poll_call(&mut c);
                 s.accepts.insert(i, c);
-                if r == "pending" && s.driver.queue_lens().1 == before { "blocked".into() } else { r }
+                if r == "pending" && before.is_some() && s.driver.as_ref().map(|d| d.queue_lens().1) == before { "blocked".into() } else { r }
             }
             _ => return "bad-op".into(),
         },
@@ -292,32 +301,74 @@ pub fn step_sock(st: &mut SockSt, args: &[&str]) -> String {
         },
         ["shutdown", port, id] => match (p16(port), p16(id)) {
             (Some(port), Some(id)) => {
-                s.driver.send_shutdown(addr_of(port), id);
+                s.driver.as_ref().unwrap().send_shutdown(addr_of(port), id);
                 "ok".into()
             }
             _ => return "bad-op".into(),
         },
-        ["run", ..] => {
-            let (ctl0, _accq0, _next0) = s.driver.queue_lens();
+        ["run", ..] | ["park", ..] => {
+            let keep = args[0] == "park";
+            let mut driver = s.driver.take().unwrap();
+            let (ctl0, _, _) = driver.queue_lens();
             let in0 = s.net.lock().inbox.len();
+            let mut fut: Pin<Box<dyn Future<Output = _>>> = Box::pin(async move {
+                let r = driver.run_once().await;
+                (driver, r)
+            });
             let mut cx = Context::from_waker(Waker::noop());
-            let res = {
-                let fut = s.driver.run_once();
-                let mut fut = std::pin::pin!(fut);
-                fut.as_mut().poll(&mut cx)
-            };
-            let (ctl1, _accq1, _next1) = s.driver.queue_lens();
-            let in1 = s.net.lock().inbox.len();
-            match res {
-                Poll::Pending => "idle".into(),
-                Poll::Ready(Err(e)) => format!("err:{}", format!("{e}").replace(' ', "_")),
-                Poll::Ready(Ok(())) => {
-                    if ctl1 < ctl0 {
-                        "ctl".into()
-                    } else if in1 < in0 {
-                        "recv".into()
-                    } else {
-                        "acc".into()
+            match fut.as_mut().poll(&mut cx) {
+                Poll::Pending => {
+                    if keep {
+                        s.parked = Some(fut);
+                        return "parked out=[] fp=-".into();
+                    }
+                    // `run`: give up the wait. Dropping the future drops the driver it owns, so run it to the
+                    // point where it hands the driver back is not possible; instead keep it parked internally
+                    // and resume it transparently at the next run.
+                    s.parked = Some(fut);
+                    let r = unpark_idle(s);
+                    r
+                }
+                Poll::Ready((driver, res)) => {
+                    let (ctl1, _, _) = driver.queue_lens();
+                    let in1 = s.net.lock().inbox.len();
+                    s.driver = Some(driver);
+                    match res {
+                        Err(e) => format!("err:{}", format!("{e}").replace(' ', "_")),
+                        Ok(()) => {
+                            if ctl1 < ctl0 {
+                                "ctl".into()
+                            } else if in1 < in0 {
+                                "recv".into()
+                            } else {
+                                "acc".into()
+                            }
+                        }
+                    }
+                }
+            }
+        }
+        ["resume", ..] => {
+            let in0 = s.net.lock().inbox.len();
+            let mut fut = s.parked.take().unwrap();
+            let mut cx = Context::from_waker(Waker::noop());
+            match fut.as_mut().poll(&mut cx) {
+                Poll::Pending => {
+                    s.parked = Some(fut);
+                    return "parked out=[] fp=-".into();
+                }
+                Poll::Ready((driver, res)) => {
+                    let in1 = s.net.lock().inbox.len();
+                    s.driver = Some(driver);
+                    match res {
+                        Err(e) => format!("err:{}", format!("{e}").replace(' ', "_")),
+                        Ok(()) => {
+                            if in1 < in0 {
+                                "recv".into()
+                            } else {
+                                "acc".into()
+                            }
+                        }
                     }
                 }
             }
@@ -325,5 +376,27 @@ pub fn step_sock(st: &mut SockSt, args: &[&str]) -> String {
         ["fp"] => "ok".into(),
         _ => return "bad-op".into(),
     };
-    format!("{head} {} fp={}", take_out(s), s.driver.fingerprint())
+    match s.driver.as_ref() {
+        Some(d) => format!("{head} {} fp={}", take_out(s), d.fingerprint()),
+        None => format!("{head} {} fp=-", take_out(s)),
+    }
+}
+
+/// `run` found nothing ready: the iteration is abandoned the way the real loop never does, so to get the
+/// driver back the parked future is resumed with a no-op wake-up source: an empty datagram that the
+/// dispatcher discards as unparseable.
+fn unpark_idle(s: &mut SockInner) -> String {
+    {
+        let mut g = s.net.lock();
+        g.inbox.push_back((addr_of(0), vec![]));
+    }
+    let mut fut = s.parked.take().unwrap();
+    let mut cx = Context::from_waker(Waker::noop());
+    match fut.as_mut().poll(&mut cx) {
+        Poll::Ready((driver, _)) => {
+            s.driver = Some(driver);
+            "idle".into()
+        }
+        Poll::Pending => "PANIC harness: idle run did not resume".into(),
+    }
 }
